@@ -77,6 +77,9 @@ func (presentationDefinition PresentationDefinition) Match(vcs []vc.VerifiableCr
 	var selectedVCs []vc.VerifiableCredential
 	var descriptorMaps []InputDescriptorMappingObject
 	var err error
+	if err = presentationDefinition.checkEntries(); err != nil {
+		return nil, nil, err
+	}
 	if len(presentationDefinition.SubmissionRequirements) > 0 {
 		if descriptorMaps, selectedVCs, err = presentationDefinition.matchSubmissionRequirements(vcs); err != nil {
 			return nil, nil, err
@@ -86,6 +89,29 @@ func (presentationDefinition PresentationDefinition) Match(vcs []vc.VerifiableCr
 	}
 
 	return selectedVCs, descriptorMaps, nil
+}
+
+// checkEntries returns an error if the presentation definition contains an empty (null) input descriptor or submission requirement.
+// A presentation definition received from another party is not validated against the JSON schema, so it may contain those.
+func (presentationDefinition PresentationDefinition) checkEntries() error {
+	for _, inputDescriptor := range presentationDefinition.InputDescriptors {
+		if inputDescriptor == nil {
+			return errors.New("presentation definition contains an empty input descriptor")
+		}
+	}
+	var check func(submissionRequirements []*SubmissionRequirement) error
+	check = func(submissionRequirements []*SubmissionRequirement) error {
+		for _, submissionRequirement := range submissionRequirements {
+			if submissionRequirement == nil {
+				return errors.New("presentation definition contains an empty submission requirement")
+			}
+			if err := check(submissionRequirement.FromNested); err != nil {
+				return err
+			}
+		}
+		return nil
+	}
+	return check(presentationDefinition.SubmissionRequirements)
 }
 
 // ResolveConstraintsFields returns a map where each of the InputDescriptor constraints field is mapped,
